@@ -12,7 +12,7 @@ TECHNIQUE = ("runtime monitoring under fault injection: (a) a failing expression
              "position x failure kind x language x history point; (b) source-free failpoints - the k-th evaluator call "
              "of a healthy run raises the evaluator's own exception, for every k")
 RULE = ("(a) templates: position in {input, vars, action, task input, with.items, with.concurrency, delay, retry.when, "
-        "retry.count, retry.delay, when, publish, output} x kind in {missing key, wrong type, unknown function, division "
+        "retry.count, retry.delay, when, publish, publish on a transition with several targets beside a fail command, output} x kind in {missing key, wrong type, unknown function, division "
         "by zero, undefined variable (assigned on another path only)} x {YAQL, Jinja; bare, two expressions embedded in "
         "text, inside a Jinja block statement, beside a Jinja raw block} x point in {start, mid-run, after a "
         "join, loop iteration 2, after pause/resume, during rerun}; (b) failpoints: for generated definitions the healthy "
@@ -24,7 +24,7 @@ ASSUMPTIONS = ASSUME_SIM + ["failpoints are placed at evaluator level only (stri
 
 MARK = "_mk"
 POSITIONS = ["input", "vars", "action", "tinput", "items", "concurrency", "delay", "retry_when", "retry_count",
-             "retry_delay", "when", "publish", "output"]
+             "retry_delay", "when", "publish", "publish_multi", "output"]
 KINDS = ["missing_key", "wrong_type", "unknown_fn", "div_zero", "undefined", "string_value"]
 STRING_VALUE_POSITIONS = ("items", "concurrency", "delay", "retry_count", "retry_delay")
 POINTS = ["start", "mid", "join", "loop2", "resume", "rerun", "canceling"]
@@ -83,7 +83,7 @@ def template(position, kind, lang, point):
         return None
     if kind == "string_value" and position not in STRING_VALUE_POSITIONS:
         return None
-    if point == "canceling" and position not in ("when", "publish", "retry_when"):
+    if point == "canceling" and position not in ("when", "publish", "publish_multi", "retry_when"):
         return None  # nothing is rendered or started once a cancel was requested
     bad = bad_expr(kind, flang, boolean=position in ("when", "retry_when"), loop=loop)
     ok = "<% succeeded() %>" if lang == "yaql" else "{{ succeeded() }}"
@@ -132,6 +132,10 @@ def template(position, kind, lang, point):
         X["next"] = [{"when": bad, "do": "after"}]
     elif position == "publish":
         X["next"] = [{"when": ok, "publish": [{"r": bad}], "do": "after"}]
+    elif position == "publish_multi":
+        # the failing publish sits on a transition with several targets, and a fail command with a clean-up task is
+        # satisfied by the same completion: only `cleanup` may still be offered, never the targets of the failed transition
+        X["next"] = [{"when": ok, "publish": [{"r": bad}], "do": ["after", "after2"]}, {"when": ok, "do": ["cleanup", "fail"]}]
     plan = "free"
     target = "x"
     if point == "start":
@@ -165,8 +169,11 @@ def template(position, kind, lang, point):
         T["t1"] = task(next=[{"when": ok, "do": "x"}])
         T["x"] = X
         plan = "rerun"
-    if position in ("when", "publish"):
+    if position in ("when", "publish", "publish_multi"):
         T["after"] = task()
+    if position == "publish_multi":
+        T["after2"] = task()
+        T["cleanup"] = task()
     if kind == "undefined":
         # late_mk is published only on a transition that is not taken at run time.  Inspection merges
         # what every inbound transition of a join assigns, so it sees an assignment upstream.
@@ -188,10 +195,11 @@ class Containment(Monitor):
     """what must follow a run-time expression failure"""
     name = "containment"
 
-    def __init__(self, marker, target=None, task_level=True):
+    def __init__(self, marker, target=None, task_level=True, never=()):
         self.marker = marker
         self.target = target
         self.task_level = task_level
+        self.never = tuple(never)  # tasks that must not be offered at all once the failure was recorded
 
     def on_init(self, run):
         self.reached_step = None
@@ -222,7 +230,7 @@ class Containment(Monitor):
     def on_offer(self, run, ev, info, action, rec):
         if self.reached_step is not None and run.step > self.reached_step:
             stg = [x for x in ev["pre"]["state"]["staged"] if x["id"] == info["task"] and x["route"] == info["route"]]
-            if stg and stg[0].get("run_on_fail") and ev["pre"]["status"] == "failed":
+            if stg and stg[0].get("run_on_fail") and ev["pre"]["status"] == "failed" and info["task"] not in self.never:
                 return  # documented clean-up task listed beside a fail command (C04)
             if run.ctl["reruns"]:
                 return
@@ -298,7 +306,8 @@ def templates(job):
             out["sets"].setdefault("rejected", set()).add("%s/%s/%s/%s" % (p, k, l, pt))
             continue
         for lazy in (0, 50):
-            cm = Containment(None if k == "string_value" else MARK, target=target, task_level=p not in ("input", "vars", "output"))
+            cm = Containment(None if k == "string_value" else MARK, target=target, task_level=p not in ("input", "vars", "output"),
+                             never=("after", "after2") if p == "publish_multi" else ())
             ms = [m for m in workloads.monitors() if m.name != "ledger"] + [cm]
             run = explore.make_run(dict(wf=wf, inputs=inputs, oseed=1, p_fail=0.0), ms, model=None,
                                    label="%s/%s/%s/%s" % (p, k, l, pt))
